@@ -235,8 +235,13 @@ def tasks(tier, seed):
     # (c') the declared code is honoured by every evaluation the constructor makes (audit of the weights, of the logit):
     # a value 99999 is an ordinary number when another code is declared; the declared code in a weight is refused
     for col in ('w', 'x1', 'c'):
-        for what in ('default-code-value-under-a-custom-code', 'declared-custom-code'):
+        for what in ('default-code-value-under-a-custom-code', 'declared-custom-code',
+                     'default-code-value-under-code-zero', 'declared-code-zero'):
             t.append(dict(part='missing_model', col=col, what=what, fresh=True))
+    # (b'') a specification that became faulty after the model object was made (the table edited in place): simulate()
+    # audits its formulas again and must refuse
+    for kind in ('column-dropped', 'invalid-choice-written', 'nan-written', 'valid-edit'):
+        t.append(dict(part='stale_model', kind=kind, fresh=True))
     t.append(dict(part='sticky', fresh=True))
     # expected-error missing-data cases must be fresh; decided statically from the reference
     for task in t:
@@ -270,6 +275,8 @@ def run_task(task):
         _missing(task, rec)
     elif part == 'missing_model':
         _missing_model(task, rec)
+    elif part == 'stale_model':
+        _stale_model(task, rec)
     elif part == 'sticky':
         _sticky(rec)
     return rec.result()
@@ -284,7 +291,7 @@ def on_abort(task, info):
         return {}
     if task.get('part') in ('plant_engine', 'sticky'):
         return {}
-    if task.get('part') == 'missing_model' and task.get('what') == 'declared-custom-code':
+    if task.get('part') == 'missing_model' and task.get('what') in ('declared-custom-code', 'declared-code-zero'):
         return {}
     if task.get('part') == 'emptied':
         # empty data must be refused with the library's own error: a process that dies is not that
@@ -974,16 +981,62 @@ def _missing(task, rec):
                       expected=want, observed=got)
 
 
+def _stale_model(task, rec):
+    """History [valid model of two simulated formulas built; the table is edited in place; simulate()].  simulate audits the
+    formulas against the table as it is now: a formula that refers to a column that is no longer there, or whose choice
+    column now holds a value that is not an alternative, is refused with the library error; an edit that leaves the
+    specification valid is accepted."""
+    from biogeme.exceptions import BiogemeError
+    from vf.engine import make_db, make_biogeme
+    kind = task['kind']
+    rows = [dict(x1=1.0, x2=-1.0, c=1.0, u=3.0), dict(x1=2.0, x2=0.5, c=2.0, u=4.0), dict(x1=0.5, x2=2.0, c=2.0, u=5.0)]
+    sp = {'b': (0.5, None, None, 0)}
+    ll_t = ('loglogit', ('var', 'c'), ((1, ('*', ('beta', 'b'), ('var', 'x1')), None), (2, ('*', ('beta', 'b'), ('var', 'x2')), None)))
+    f_t = ('*', ('beta', 'b'), ('var', 'u'))
+    case = {k: v for k, v in task.items() if k != 'fresh'}
+    rec.retire = True
+    db = make_db(rows, ['x1', 'x2', 'c', 'u'])
+    b = make_biogeme(db, {'prob': R.Builder(sp).build(ll_t), 'f': R.Builder(sp).build(f_t)})
+    first = b.simulate({'b': 0.5})
+    if kind == 'column-dropped':
+        db.data.drop(columns=['u'], inplace=True)
+    elif kind == 'invalid-choice-written':
+        db.data.loc[db.data.index[1], 'c'] = 7.0
+    elif kind == 'nan-written':
+        db.data.loc[db.data.index[2], 'x1'] = float('nan')
+    else:
+        db.data.loc[db.data.index[0], 'u'] = 30.0
+    key = ('stale_model', kind)
+    try:
+        out = b.simulate({'b': 0.5})
+    except BiogemeError:
+        rec.case(key, (kind, 'refused'), outcome='refused')
+        if kind == 'valid-edit':
+            rec.violation('C12|valid-specification-rejected-BiogemeError|history=[model, valid in-place edit, simulate]', 'refused', case)
+        return
+    except Exception as e:
+        rec.case(key, (kind, type(e).__name__), outcome='wrong-error')
+        if kind != 'valid-edit':
+            rec.violation(f'C12|wrong-error-type-{type(e).__name__}|history=[model, {kind}, simulate]', f'{type(e).__name__}: {str(e)[:200]}', case)
+        return
+    rec.case(key, (kind, 'accepted'), outcome='accepted')
+    if kind in ('column-dropped', 'invalid-choice-written'):
+        rec.violation(f'C12|faulty-specification-accepted|history=[model, {kind}, simulate]',
+                      f'after {kind} simulate() returned numbers: {out.values.tolist()}', case, observed=out.values.tolist())
+    elif kind == 'nan-written':
+        rec.count('stale_model_nan_written_accepted_by_simulate')      # the statement lists NaN data for the data, judged at creation
+
+
 def _missing_model(task, rec):
     """A weighted logit model under a declared missing-data code of -77.  `what` = a cell holds 99999 (an ordinary number under
     that declaration: the model is accepted and the log likelihood is the weighted sum computed with 99999) / a cell holds
     -77 in a column every observation reads (refused, no number)."""
     import numpy as np
     from vf.engine import make_db, make_biogeme
-    code = -77.0
-    rows = [dict(x1=1.0, x2=-1.0, c=1.0, w=1.5), dict(x1=2.0, x2=0.5, c=2.0, w=0.5), dict(x1=0.5, x2=2.0, c=2.0, w=2.0)]
     col, what = task['col'], task['what']
-    value = 99999.0 if what == 'default-code-value-under-a-custom-code' else code
+    code = 0.0 if what.endswith('code-zero') else -77.0      # 0 is a legal declaration (no cell of the table is 0)
+    rows = [dict(x1=1.0, x2=-1.0, c=1.0, w=1.5), dict(x1=2.0, x2=0.5, c=2.0, w=0.5), dict(x1=0.5, x2=2.0, c=2.0, w=2.0)]
+    value = 99999.0 if what.startswith('default-code-value') else code
     if col != 'w' and value == 99999.0:
         # 99999 is not an alternative, and as an attribute it leaves the regular domain of the logit (overflow)
         rec.case(None, ('missing_model', col, what, 'n/a'), outcome='not-applicable')
@@ -1001,15 +1054,15 @@ def _missing_model(task, rec):
         got = float(b.calculate_likelihood(np.array([0.5]), scaled=False))
     except Exception as e:
         rec.case(key, (col, what, 'raised', type(e).__name__), outcome=('raised', what))
-        if what == 'default-code-value-under-a-custom-code':
-            rec.violation(f'C12|valid-specification-rejected-{type(e).__name__}|value-99999-under-declared-code--77:column={col}',
-                          f'declared missing-data code -77; column {col} holds the ordinary value 99999 in one row: the weighted model is '
+        if what.startswith('default-code-value'):
+            rec.violation(f'C12|valid-specification-rejected-{type(e).__name__}|value-99999-under-declared-code-{code:g}:column={col}',
+                          f'declared missing-data code {code:g}; column {col} holds the ordinary value 99999 in one row: the weighted model is '
                           f'rejected with {type(e).__name__}: {str(e)[:200]}', case, observed=repr(e)[:300])
         return
     rec.case(key, (col, what, round(got, 6)), outcome=('returned', what))
-    if what == 'declared-custom-code':
-        rec.violation(f'C12|missing-data-code-used-in-calculation|entry=weighted-model:column={col}',
-                      f'declared code -77 stands in column {col}, which every observation reads, yet the log likelihood {got} was returned', case,
+    if what.startswith('declared-'):
+        rec.violation(f'C12|missing-data-code-used-in-calculation|entry=weighted-model:column={col}:code={code:g}',
+                      f'declared code {code:g} stands in column {col}, which every observation reads, yet the log likelihood {got} was returned', case,
                       observed=got)
         return
     want = sum(R.evaluate(w_t, r, {'b': 0.5}) * R.evaluate(ll_t, r, {'b': 0.5}) for r in rows)
@@ -1067,6 +1120,8 @@ def replay(case):
         _structural_nodb(rec)
     elif part == 'missing_model':
         _missing_model(case, rec)
+    elif part == 'stale_model':
+        _stale_model(case, rec)
     elif part == 'emptied':
         # replayed in a child process: the engine may abort
         import multiprocessing as mp
